@@ -10,7 +10,7 @@ SA == [id |-> "A", idx |-> 1]
 SB == [id |-> "B", idx |-> 1]
 SgSets4 == {<<>>, <<SA>>, <<SB>>, <<SA, SB>>}
 AllSigners == SUBSET Keys3
-ActsAll == {"RegPk", "RegCtrl", "AddKeyIdx", "RemoveKeyIdx", "AddNewAuthKey", "SetAuthKey", "RemoveAuthKey", "AddKeyPk",
+ActsAll == {"RegPk", "RegAttrs", "RegCtrl", "AddKeyIdx", "RemoveKeyIdx", "AddNewAuthKey", "SetAuthKey", "RemoveAuthKey", "AddKeyPk",
             "RemoveKeyPk", "AddAttrIdx", "RemoveAttrIdx", "AddAttrPk", "SetRecovery", "UpdateRecovery", "RemoveRecovery",
             "AddRecoveryOld", "ChangeRecoveryOld", "AddKeyByRecovery", "RemoveKeyByRecovery", "RemoveController",
             "AddKeyByCtrl", "RemoveKeyByCtrl", "AddAttrByCtrl", "SetAuthKeyByCtrl", "RevokeID", "RevokeByCtrl", "VerifySig"}
@@ -37,9 +37,23 @@ I6 == [I1 EXCEPT !["C"] = [NoneRec EXCEPT !.st = "valid",
 \* + RegPk(C,k3), AddNewAuthKey(C,k1,1), RemoveAuthKey(C,2,1): C's second key is a pure authentication key whose
 \* authentication right was taken away (not revoked, not in the publicKey list): it must authorize nothing
 I7 == [I1 EXCEPT !["C"] = [NoneRec EXCEPT !.st = "valid", !.keys = <<KeyRec("k3", TRUE), AKey("k1", FALSE)>>]]
+\* + RegPk(C,k3), AddAttrPk(C,a1,k3), AddRecoveryOld(C,k2,k3), RevokeID(C,1): C is REVOKED (former owner k3, former
+\* recovery k2); every registration entry point and every modifying method is then attempted on it by everybody
+I8 == [I1 EXCEPT !["C"] = RevokedRec]
+\* RegPk(A,k1), RegCtrl(B, controller A), RegPk(C,k3), RevokeByCtrl(B): B (a member of both groups) is REVOKED by its controller
+I9 == [I0 EXCEPT !["A"] = Own("k1"), !["B"] = RevokedRec, !["C"] = Own("k3")]
+\* below the fork height (NewOntId = FALSE): every key record has authentication right
+\* I1 + RegCtrl(C, group{A,B} 2-of-2), AddKeyByCtrl(C, k3)
+P2 == [I1 EXCEPT !["C"] = [NoneRec EXCEPT !.st = "valid", !.ctrl = CGroup(GAB2), !.keys = <<KeyRec("k3", TRUE)>>]]
+\* I1 + RegPk(C,k3), AddKeyPk(C,k1,k3), SetRecovery(C, group{A,B} 1-of-2, 1), AddAttrPk(C,a1,k3)
+P3 == [I1 EXCEPT !["C"] = [NoneRec EXCEPT !.st = "valid", !.keys = <<KeyRec("k3", TRUE), KeyRec("k1", TRUE)>>,
+                                          !.rec = CGroup(GAB1), !.attrs = {"a1"}]]
 Inits0 == {I0}
 Inits1 == {I1}
-InitsAll == {I0, I1, I2, I3, I4, I5, I6, I7}
+InitsAll == {I0, I1, I2, I3, I4, I5, I6, I7, I8, I9}
+InitsRev == {I8, I9}
+InitsPre == {I0, I1, P2, P3, I4, I5, I8, I9}
+InitsPreQ == {I1, P3, I5, I8}
 InitsPrep == {I2, I3, I4, I5}
 Inits2 == {I2}
 Inits3 == {I3}
